@@ -262,7 +262,7 @@ func mul(rawNums ...vals.Num) vals.Num {
 
 func slash(fm *Frame, args ...vals.Num) error {
 	if len(args) == 0 {
-		fm.Deprecate("implicit cd is deprecated; use cd or location mode instead", fm.traceback.Head, 21)
+		fm.Deprecate("implicit cd is deprecated; use cd or location mode instead", nil, 21)
 		// cd /
 		return fm.Evaler.Chdir("/")
 	}
